@@ -154,21 +154,40 @@ func CheckC03(c *Ctx) {
 		m := spec.V3(vid)
 		c.Extra["oracle_two_valued_cells_v"+v.Name] = m.AmbiguousCells
 		classes := newBitset(nclass * 1)
-		// (1) class-exhaustive sweep, Modified metrics X
-		c.Parallel("classes-"+v.Name, nclass, 1<<15, func(w *Worker, i int) {
-			a := v3ClassAssign(i)
-			o, steps := buildOrViolate(c, w, api, a, styleFor(i))
-			if o == nil {
-				return
-			}
-			v3Check(c, w, api, m, o, a, steps, classes)
-			if i&7 == 3 {
-				v3Rescore(c, w, api, m, o, a, steps)
-			}
-			if i%1000003 == 0 {
-				w.Sample(map[string]any{"version": v.Name, "vector": v.Canonical(a), "base": o.Score(0), "temporal": o.Score(1), "environmental": o.Score(2)})
-			}
-		})
+		// (1) class-exhaustive sweep; the effective values are carried by the base metrics (Modified X), by all eight
+		// Modified metrics written explicitly over a random decoy base, or by a random mixture (quick: one seeded mode
+		// per class; thorough: three passes, one per mode)
+		passes := c.Pick(1, 3)
+		for pass := 0; pass < passes; pass++ {
+			pass := pass
+			c.Parallel(fmt.Sprintf("classes-%s-pass%d", v.Name, pass), nclass, 1<<15, func(w *Worker, i int) {
+				a := v3ClassAssign(i)
+				mode := pass
+				if c.Quick {
+					mode = w.R.Intn(3)
+				}
+				if mode != 0 {
+					for k := 0; k < 8; k++ {
+						if mode == 1 || w.R.Bool() {
+							a[14+k] = a[k] + 1
+							a[k] = uint8(w.R.Intn(len(v.Metrics[k].Values)))
+						}
+					}
+				}
+				w.counts["realised:"+[]string{"through-base", "through-Modified", "mixed"}[mode]]++
+				o, steps := buildOrViolate(c, w, api, a, styleFor(i))
+				if o == nil {
+					return
+				}
+				v3Check(c, w, api, m, o, a, steps, classes)
+				if i&7 == 3 {
+					v3Rescore(c, w, api, m, o, a, steps)
+				}
+				if i%1000003 == 0 {
+					w.Sample(map[string]any{"version": v.Name, "vector": v.Canonical(a), "base": o.Score(0), "temporal": o.Score(1), "environmental": o.Score(2)})
+				}
+			})
+		}
 		// (2) cover over Modified metrics: each Modified value x each base value of the same metric x 3 backgrounds x both scopes
 		type mc struct{ mod, mv, bv, bg, s int }
 		var list []mc
@@ -267,7 +286,7 @@ func CheckC03(c *Ctx) {
 	}
 	c.Extra["effective_classes_per_version"] = nclass
 	c.SetReport(Report{
-		Rule:        "exact-rational model of the v3.0/v3.1 equations (math/big; Roundup per v3.1 Appendix A on the exact value, v3.0 also accepts the plain ceiling where they differ -- 0 such cells exist). COMPLETE: all 2,592 base x 100 E/RL/RC x 64 CR/IR/AR = 16,588,800 effective classes per version, each realised on a real object (Set-in-order; every 16th in one of the other four history styles), all five scoring methods compared (sub-scores +-1e-9). Plus a complete Modified-metric cover (each Modified value x each base value x 3 backgrounds x 2 scopes x 5 styles) and random overlays with a random subset of Modified metrics defined. distinct = effective classes reached (bitset), both versions summed",
+		Rule:        "exact-rational model of the v3.0/v3.1 equations (math/big; Roundup per v3.1 Appendix A on the exact value, v3.0 also accepts the plain ceiling where they differ -- 0 such cells exist). COMPLETE: all 2,592 base x 100 E/RL/RC x 64 CR/IR/AR = 16,588,800 effective classes per version, each realised on a real object (Set-in-order; every 16th in one of the other four history styles) with the effective values carried by the base metrics, by all eight Modified metrics over a random decoy base, or by a random mixture (quick: one seeded mode per class; thorough: all three), all five scoring methods compared (sub-scores +-1e-9). Plus a complete Modified-metric cover (each Modified value x each base value x 3 backgrounds x 2 scopes x 5 styles) and random overlays with a random subset of Modified metrics defined. distinct = effective classes reached (bitset), both versions summed",
 		Exhaustive:  true,
 		DistinctN:   classTotal,
 		Assumptions: []string{"weights and equations transcribed in harness/spec/score_v3.go from the FIRST v3.0/v3.1 specification documents", "exhaustive over effective classes; the raw space (5.7e11) is covered by classes + sampled overlays"},
